@@ -332,7 +332,12 @@ func (m *machine) declare(p *gen.Program) *merr {
 			if !ok1 || !ok2 {
 				return fail(ETypeError)
 			}
-			b := new(big.Int).Set(m.read(string(acct), string(asset)))
+			// the balance of @world is never requested (C10): whatever the ledger holds for it, a
+			// balance() / overdraft() on it sees 0
+			b := new(big.Int)
+			if string(acct) != "world" {
+				b.Set(m.read(string(acct), string(asset)))
+			}
 			if d.Origin.Name == "balance" {
 				if b.Sign() < 0 {
 					return fail(ENegativeBalance)
